@@ -487,6 +487,10 @@ def gen_spec(rng, variant=None, geo=None, dim=None, n=None, m=None, allow_norm=T
         m = int(np.prod([len(a) for a in axes]))
     else:
         spec["pos"] = gen_points(rng, geo, fd, m)
+        if rng.random() < 0.5:     # one target sits exactly on a conditioning point (nugget-aware right-hand side)
+            j, t = int(rng.integers(n)), int(rng.integers(m))
+            for a in range(fd):
+                spec["pos"][a][t] = spec["cond_pos"][a][j]
         spec["mesh_type"] = "unstructured"
     spec["chunk_size"] = [None, None, 1, 2, 3, m, m + 5][int(rng.integers(7))]
     return spec
@@ -638,15 +642,18 @@ def correspond_case(ctx, drv, spec, stats, what="all"):
     mean_callable = isinstance(spec.get("mean"), str) and spec["variant"] == "Simple"
     mval = 0.0 if (spec.get("mean") is None or mean_callable or spec["variant"] != "Simple") else float(spec["mean"])
     for post in (True, False):
+        graw = kr.get_mean(post_process=False)
+        if post and graw is not None and not bool(in_range(nz, graw + mval)):
+            # outside the normalizer's denormalize_range gstools' Normalizer._check_input raises a TypeError for
+            # 0-d input (arrays give NaN + warning): normalizer territory (C18), not a kriging result
+            stats["get_mean_out_of_normalizer_range"] = stats.get("get_mean_out_of_normalizer_range", 0) + 1
+            continue
         gi = kr.get_mean(post_process=post)
         gm = drv.call("get_mean", *sa, Ki, ci, da[0], da[1], float(mval), bool(mean_callable), bool(post))
         if (gi is None) != (gm is None):
             bad("get_mean", "get_mean None-ness differs (post_process=%s)" % post, impl=gi, model=gm)
         elif gi is not None:
             sc = np.abs(ci) @ np.abs(Ki[:, kr.cond_no]) if kr.unbiased else 0.0
-            graw = kr.get_mean(post_process=False)
-            if post and (graw is None or not bool(in_range(nz, graw + mval))):
-                continue
             t = post_tol(nz, graw + mval, 1e-9 * sc + 1e-300) if post else 1e-9 * sc + 1e-300
             if not abs(float(gi) - float(gm)) <= t + 1e-9 * abs(float(gi)):
                 bad("get_mean", "get_mean differs (post_process=%s)" % post, impl=float(gi), model=float(gm))
@@ -789,7 +796,9 @@ def probe_metamorphic(ctx, rng, spec, stats, tb):
         _viol(ctx, "cond_perm", "result depends on the order of the conditioning points (max dev %.3g, tol %.3g)" % (
             np.abs(fr2.reshape(-1) - fr.reshape(-1)).max(), 2 * tf.max()), s2, "cond_perm", perm=perm, a=fr, b=fr2)
     # ---- NaN conditioning values are ignored
-    if n > tb["N"] - n + 3 and not isinstance(spec.get("cond_err"), list):
+    # (not for ExtDrift: the external drift array is not filtered together with the values, gstools raises
+    #  "wrong number of ext. drifts" -- an input-format limitation, no wrong estimate; see design/C05.md)
+    if n > tb["N"] - n + 3 and not isinstance(spec.get("cond_err"), list) and v != "ExtDrift":
         drop = int(rng.integers(n))
         cv = list(spec["cond_val"])
         cv[drop] = float("nan")
